@@ -52,6 +52,7 @@ def run(tier):
                 c.violation("build", "extension does not build: " + err, {"error": err})
                 c.finish()
             res = pygen.run_plan(d, plan)
+            members = pygen.run_members(d)
             dw = os.path.join(d, "wide")
             ok, err = pygen.build_ext(dw, wide)
             dropped = []
@@ -161,6 +162,7 @@ def run(tier):
             v, detail = verdicts[len(traces) + i]
             if v != "REJECT":
                 raise MachineryError("negative control %d not rejected: %s %s" % (i, v, detail))
+        common.check_members(c, [("python", members)])
         c.part("conformance", calls=len(traces), verdicts=cnt, negative_controls_rejected=len(controls),
                crashes=sum(1 for r in res if r["crashed"]))
         c.cov["rule"] = ("%d functions (scalars, bool, strings, pointers in/out/inout, defaults incl. an intent(out) parameter "
